@@ -156,6 +156,11 @@ class Terms(object):
         for sub in ast.walk(fn):
             if isinstance(sub, ast.FunctionDef) and sub is not fn:
                 self._nested.setdefault(sub.name, sub)
+        if outer is not None:
+            # sibling helpers of a nested function
+            for k_, v_ in outer[0]._nested.items():
+                if v_ is not fn:
+                    self._nested.setdefault(k_, v_)
         # loops / generators that iterate an expression some earlier loop of
         # this function iterates too: their elements are independent values
         # and get a tag (else both would be "an element of X")
@@ -449,6 +454,9 @@ class Terms(object):
                     conds.append(self.cond(a.ast, a, a.polarity))
             out.append((it, self.term(c.args[0], n), conds))
         return out or None
+
+    def full_facts(self, node):
+        return self.all_facts(node)
 
     def facts_by_path(self, node, depth=4):
         """Like all_facts, but where ``node`` is a merge point (e.g. after
@@ -745,7 +753,7 @@ class Terms(object):
             if a.kind != "assume" or a is node:
                 continue
             c = self.cond(a.ast, a, a.polarity)
-            if any(st[0] in ("phi", "mu", "rec", "attrv", "opaque")
+            if any(st[0] in ("phi", "mu", "rec", "attrv", "opaque", "new")
                    for st in subterms(c[0])):
                 # a merged / loop-carried / updated value: the same term at
                 # two program points need not be the same value; keep the
@@ -1128,7 +1136,10 @@ class Terms(object):
         inl = self._inline(e, ft, args, kws, node)
         if inl is not None:
             return inl
-        if ft[0] == "global" and ft[1].rsplit(".", 1)[-1] in _MUTABLE_CTORS:
+        if (ft[0] == "global" and
+                ft[1].rsplit(".", 1)[-1] in _MUTABLE_CTORS) or (
+                ft[0] == "attr" and ft[1][0] == "global" and
+                ft[2] in _MUTABLE_CTORS):
             return ("new", self._site(e), ("call", ft, args, kws))
         last = ft[1].rsplit(".", 1)[-1] if ft[0] in ("global", "local") \
             else (ft[2] if ft[0] == "attr" else None)
@@ -1176,8 +1187,13 @@ class Terms(object):
         dn = len(names) - len(a.defaults)
         self._busy.add(key)
         try:
-            outer = (self, node) if callee.name in self._nested and \
-                self._nested[callee.name] is callee else None
+            outer = None
+            if callee.name in self._nested and \
+                    self._nested[callee.name] is callee:
+                if _inside_fn(callee, self.fn):
+                    outer = (self, node)
+                elif self.outer is not None:
+                    outer = self.outer      # a sibling: same enclosing scope
             ct = Terms(callee, helpers=self.helpers, outer=outer,
                        pure=self.pure)
             if self.hyps:
@@ -1241,6 +1257,36 @@ class _Inner(object):
 
     def all_facts(self, node):
         return [(self._x(t), p) for t, p in self.t.all_facts(node)]
+
+    def full_facts(self, node):
+        """Facts holding at ``node`` of the nested function: those that hold
+        where it is called (in the enclosing function, provided nothing they
+        mention is mutated by the nested function before ``node``) and its
+        own."""
+        host = self.host
+        hn = host.cfg.node_containing(self.call)
+        outer = host.full_facts(hn) if isinstance(host, _Inner) else \
+            host.all_facts(hn)
+        # a fact of the caller about a container the helper mutates is only
+        # kept if no such mutation can precede ``node``
+        muts = []
+        for c in ast.walk(self.t.fn):
+            if isinstance(c, ast.Call) and isinstance(c.func, ast.Attribute) \
+                    and _owner(c, self.t.fn):
+                muts.append((self.t.cfg.node_containing(c),
+                             self.term(c.func.value)))
+        for n_, st, base, key, val in stores(self.t):
+            muts.append((n_, self._x(base)))
+        kept = []
+        for t, p in outer:
+            stale = False
+            for mn, recv in muts:
+                if mn is not node and self.t.cfg.reaches(mn, node) and any(
+                        st == recv for st in subterms(t)):
+                    stale = True
+            if not stale:
+                kept.append((t, p))
+        return kept + self.all_facts(node)
 
     def under(self, *hyps):
         # hypotheses are given in outer terms; they are matched after
